@@ -45,7 +45,7 @@ def main():
         for attempt in range(4):     # one wall-clock performance test is flaky on a busy machine: retry
             r = sh(f"{env} /venv/bin/python -m pytest -q -x -p no:cacheprovider --timeout=900 2>&1 | tail -8", cwd=root)
             last = r.stdout.strip().splitlines()[-1] if r.stdout.strip() else "?"
-            if "failed" not in last or "TestGradientComplexity" not in r.stdout:
+            if "failed" not in last or ("TestGradientComplexity" not in r.stdout and "test_quadratic_form_constant_time" not in r.stdout):
                 break
         meta["repo_tests_with_patch"] = last
         meta["ran"].append(f"cd <copy> && {env} /venv/bin/python -m pytest -q -x -p no:cacheprovider --timeout=900 -> {last}")
